@@ -90,6 +90,8 @@ func propC02(p *Prog, r *Report) {
 	c02NewerOf(p, r)
 	c02Unlink(p, r)
 	c11Plumbing(p, r, "C02.e")
+	r.Rule("C02.f", "defaults: the registry answers the main (no-transaction) id with the ReadCommitted level, both clients use the caller's level and default to ReadCommitted, Begin registers a generated id with the requested level and a fresh snapshot point and returns the registry's error")
+	c02Defaults(p, r, "C02.f")
 }
 
 func c02Levels(p *Prog, r *Report) {
